@@ -7,9 +7,12 @@ import (
 	"hash/fnv"
 	"sort"
 	"strings"
+	"time"
 
 	"verifharness/lib"
 )
+
+var searchSpent time.Duration
 
 const sigCold = "cold-related-first-use"
 const sigOrBase = "shared-or-first-session-where-swap"
@@ -122,6 +125,10 @@ func (c caseData) term(part int) string {
 }
 
 func emit(out *lib.Out, spec RoundSpec, obs RoundObs) {
+	if obs.Skipped {
+		out.Count("rounds_not_run_time_budget", spec.Kind)
+		return
+	}
 	var c caseData
 	var sig1, sig2, shape string
 	smallPool, hung := false, false
@@ -187,10 +194,28 @@ func emit(out *lib.Out, spec RoundSpec, obs RoundObs) {
 			if po.Hang {
 				c.bad++
 			}
-			budget := 200000
-			sched, found, exhausted, nodes := findWitness2(c.cfg, c.progs, c.warm, po.Events, budget)
+			// the search is bounded per round and over the whole run: a trace that is not a trace
+			// of the model (a changed protocol) must not eat the time budget of the check
+			budget := 80000
+			anyOpen := false
+			for _, b := range c.closed {
+				if !b {
+					anyOpen = true
+				}
+			}
+			var sched []int
+			found, exhausted := false, true
+			t0 := time.Now()
+			if !anyOpen && searchSpent < 30*time.Second {
+				sched, found, exhausted, _ = findWitness2(c.cfg, c.progs, c.warm, po.Events, budget)
+			}
+			searchSpent += time.Since(t0)
 			c.sched, c.searched = sched, found || !exhausted
+			nodes := 0
 			switch {
+			case anyOpen:
+				// the model never returns an open schema (c07_parse_waits): no witness can exist
+				out.Count("witness", "not searched: a return with initialized still open")
 			case found:
 				out.Count("witness", "found")
 			case exhausted:
@@ -257,6 +282,12 @@ func emit(out *lib.Out, spec RoundSpec, obs RoundObs) {
 		if d.OrBase {
 			sig2 = sigOrBase
 		}
+		if d.Shared != nil {
+			out.Count("db_shared_handle", fmt.Sprintf("%s x%d", d.Shared.Kind, d.Shared.N))
+		}
+		if len(d.NamerDelays) > 0 {
+			out.Count("db_staggered_cold_start", fmt.Sprint(d.G))
+		}
 		hasTx := false
 		for _, p := range d.Programs {
 			for _, o := range p {
@@ -283,7 +314,7 @@ func emit(out *lib.Out, spec RoundSpec, obs RoundObs) {
 				out.Count("db_op_kinds", o.Kind)
 			}
 		}
-		shape = fmt.Sprintf("db|G%d|cold=%v|prep=%v|sessprep=%v|conns=%d|orbase=%v|%s|ops=%d|%v", d.G, d.Cold, d.PrepareStmt, d.SessionPrep, d.Conns, d.OrBase, strings.Join(fams, "+"), ops, kinds)
+		shape = fmt.Sprintf("db|G%d|cold=%v|prep=%v|sessprep=%v|conns=%d|orbase=%v|shared=%v|stag=%v|%s|ops=%d|%v", d.G, d.Cold, d.PrepareStmt, d.SessionPrep, d.Conns, d.OrBase, d.Shared, len(d.NamerDelays) > 0, strings.Join(fams, "+"), ops, kinds)
 		nontriv = d.G >= 2 && ops >= 2*d.G
 		out.Count("db_G", fmt.Sprint(d.G))
 		out.Count("db_cache", map[bool]string{true: "cold", false: "warm"}[d.Cold])
